@@ -134,7 +134,13 @@ impl Beatmap {
         writer.write_all(b"\n")?;
         self.encode_hit_objects(&mut writer)?;
 
-        writer.flush()
+        // A transient interruption is retried, just as `write_all` does for writes
+        loop {
+            match writer.flush() {
+                Err(err) if err.kind() == ErrorKind::Interrupted => {}
+                res => return res,
+            }
+        }
     }
 
     fn encode_general<W: Write>(&self, writer: &mut W) -> IoResult<()> {
